@@ -673,7 +673,7 @@ func (c *vf6Case) wf() bool {
 	src := s.id1 != "" && s.id1 != "?" && s.id2 != "" && s.id2 != "?" && s.first >= 1 && s.blen >= 0 &&
 		(!s.backlog || s.master+1 == s.first+s.blen) && s.master >= 0 && s.snapLen > 0
 	ch := (!c.hasAof || (c.aofL >= 0 && c.aofL <= c.aofR)) && (!c.hasRdb || (c.rdbLeft >= 0 && c.rdbSize > 0)) &&
-		(!c.hasAof || !c.hasRdb || c.aofL == c.rdbLeft) && !((c.cRun == "" || c.cRun == "?") && (c.hasRdb || c.hasAof))
+		(!c.hasAof || !c.hasRdb || c.aofL == c.rdbLeft || (c.backend == "m" && c.rdbLeft <= c.aofL)) && !((c.cRun == "" || c.cRun == "?") && (c.hasRdb || c.hasAof))
 	return src && ch
 }
 
